@@ -606,6 +606,7 @@ struct ImplObs {
 const PANIC_MARK: &str = "\u{1}panic ";
 
 fn run_impl(text: &str) -> ImplObs {
+  crate::util::note_case(text);
   let mut panic = None;
   let scanned = match guarded(|| match dmntk_recognizer::scan(text) {
     Err(e) => Err(e.to_string()),
